@@ -2793,6 +2793,18 @@ pub fn gen_cases(topic: &str, seed: u64, n: usize, path: &str) -> Result<(), Str
                     if changed { Some(json!({"t":"O","kv":out})) } else { None }
                 }).take(2).collect();
                 docs.extend(flat);
+                // a MERGE-KEY spelling: all members moved under the key `<<` (what YAML 1.1 calls a merge
+                // key; serde_yaml keeps it as an ordinary member unless asked to apply it) - a different
+                // document, on which none of the rule's fields resolves; sometimes one member stays outside
+                let merged: Vec<J> = docs.iter().filter_map(|d| {
+                    let kv = d["kv"].as_array()?;
+                    if kv.is_empty() || kv.iter().any(|p| str_of(&p[0]).map(|k| k == "<<").unwrap_or(true)) { return None; }
+                    let keep = if kv.len() > 1 && g.r.chance(1, 2) { 1 } else { 0 };
+                    let mut out: Vec<J> = kv[..keep].to_vec();
+                    out.push(json!([cps("<<"), {"t":"O","kv":kv[keep..].to_vec()}]));
+                    Some(json!({"t":"O","kv":out}))
+                }).take(2).collect();
+                docs.extend(merged);
                 let mut tps = vec![];
                 let mut tns = vec![];
                 for i in 0..docs.len() {
